@@ -55,6 +55,8 @@ fn finalize(t: Tier, _p: &Plan, rep: &mut Report) {
 	}
 }
 
+static SCARCE_RUNS: std::sync::atomic::AtomicU64 = std::sync::atomic::AtomicU64::new(0);
+
 fn raw(level: u8, x_min: u32, y_min: u32, x_max: u32, y_max: u32) -> TileBBox {
 	TileBBox { level, x_min, y_min, x_max, y_max, max: ((1u64 << level) - 1) as u32 }
 }
@@ -298,6 +300,60 @@ fn concurrent_case(cx: &CaseCtx, rep: &mut Report, idx: u64) {
 	}
 	let solo = Arc::new(solo);
 	let boxes = Arc::new(boxes);
+	// cold starts: a freshly opened reader whose very first streams arrive at the same moment (whatever a reader
+	// sets up lazily on its first stream is set up under contention), then one more stream on it alone
+	let rounds = cx.tier.pick(60, 200);
+	let mut cold_bad: Option<String> = None;
+	let cold = guard::catch(|| {
+		for round in 0..rounds {
+			let Ok(fresh) = guard::block_on(versatiles_container::get_reader(path.to_str().unwrap())) else { break };
+			let fresh = Arc::new(fresh);
+			// (a spinning gate: the callers leave it within nanoseconds of each other)
+			let gate = Arc::new(AtomicU64::new(0));
+			let hs: Vec<_> = (0..8usize)
+				.map(|t| {
+					let (fresh, gate, boxes) = (fresh.clone(), gate.clone(), boxes.clone());
+					std::thread::spawn(move || {
+						let rt = tokio::runtime::Builder::new_current_thread().enable_all().build().unwrap();
+						let w = (t + round) % boxes.len();
+						let bbox = boxes[w].clone();
+						gate.fetch_add(1, Ordering::SeqCst);
+						while gate.load(Ordering::SeqCst) < 8 {
+							std::hint::spin_loop();
+						}
+						let got: Vec<(TileCoord3, Blob)> = rt.block_on(async { fresh.get_bbox_tile_stream(bbox).await.collect().await });
+						let mut x: Vec<(Key, u64)> = got.iter().map(|(c, b)| (key_of(c), fnv(b.as_slice()))).collect();
+						x.sort();
+						(w, x)
+					})
+				})
+				.collect();
+			let mut results: Vec<(usize, Vec<(Key, u64)>)> = hs.into_iter().filter_map(|h| h.join().ok()).collect();
+			let w = round % boxes.len();
+			let after: Vec<(TileCoord3, Blob)> = guard::block_on(async { fresh.get_bbox_tile_stream(boxes[w].clone()).await.collect().await });
+			let mut x: Vec<(Key, u64)> = after.iter().map(|(c, b)| (key_of(c), fnv(b.as_slice()))).collect();
+			x.sort();
+			results.push((w, x));
+			for (w, x) in results {
+				if x != solo[w] && cold_bad.is_none() {
+					cold_bad = Some(format!("round {round}, box {}: {} tiles instead of {}", bstr(&boxes[w]), x.len(), solo[w].len()));
+				}
+			}
+			if cold_bad.is_some() {
+				break;
+			}
+		}
+	});
+	rep.evals(rounds as u64 * 9);
+	rep.count("cold_start_rounds_with_simultaneous_first_streams", rounds as u64);
+	match cold {
+		Err(p) => rep.violation(&p.signature(&format!("cold-stream-{kname}")), "the first streams on a freshly opened reader, taken at the same moment, panicked", json!({"source": kname, "panic": p.describe()})),
+		Ok(()) => {
+			if let Some(first) = cold_bad {
+				rep.violation(&format!("{kname}|cold-start-streams-differ"), "a stream on a freshly opened reader whose first streams arrived at the same moment differs from the stream taken alone", json!({"source": kname, "first": first, "tileset": ts.describe()}));
+			}
+		}
+	}
 	let keys: Arc<Vec<Key>> = Arc::new(ts.tiles.keys().cloned().collect());
 	// the PMTiles stream is a lookup per coordinate: far slower per box than the chunked versatiles stream
 	let iterations: usize = if kind == "pmtiles" { cx.tier.pick(10, 40) } else { cx.tier.pick(60, 240) };
@@ -373,6 +429,8 @@ fn concurrent_case(cx: &CaseCtx, rep: &mut Report, idx: u64) {
 }
 
 fn run_case(cx: &CaseCtx, rep: &mut Report) {
+	// every fourth case runs as a process that logs at trace level
+	guard::trace_logging(cx.case % 4 == 3);
 	let plain = KINDS as u64 * cx.tier.pick(8, 100);
 	if cx.case >= plain {
 		concurrent_case(cx, rep, cx.case - plain);
@@ -414,10 +472,20 @@ fn run_case(cx: &CaseCtx, rep: &mut Report) {
 		}
 		cx.progress(&format!("{kname} box {}", bstr(&bbox)));
 		let reader = &b.reader;
-		let fut = async { reader.get_bbox_tile_stream(bbox.clone()).await.collect().await };
+		// now and then a stream over a file-backed container runs while the process has almost no descriptors left
+		// (a long-running server, many open sources): it may still open what it opens one at a time
+		let scarce = kind < 10 && !kname.ends_with("mbtiles") && rng.chance(if kname.ends_with("directory") { 0.3 } else { 0.05 });
+		let fut = async {
+			let _few = if scarce { Some(guard::ScarceFds::new(1)) } else { None };
+			if _few.as_ref().is_some_and(|f| f.active()) {
+				SCARCE_RUNS.fetch_add(1, std::sync::atomic::Ordering::Relaxed);
+			}
+			reader.get_bbox_tile_stream(bbox.clone()).await.collect().await
+		};
 		let streamed = guard::catch(|| if mt { guard::block_on_mt(8, fut) } else { guard::block_on(fut) });
 		rep.eval();
 		rep.count(&format!("pairs_{kname}"), 1);
+		rep.count("streams_run_with_scarce_file_descriptors", SCARCE_RUNS.swap(0, std::sync::atomic::Ordering::Relaxed));
 		match class {
 			"empty" => rep.count("empty_boxes", 1),
 			"outside" | "level-without-tiles" => rep.count("boxes_outside_coverage", 1),
@@ -426,7 +494,7 @@ fn run_case(cx: &CaseCtx, rep: &mut Report) {
 			"column" | "row" => rep.count("gap_forcing_boxes", 1),
 			_ => {}
 		}
-		let witness = |extra: serde_json::Value| json!({"source": kname, "source_detail": b.describe, "bbox": bstr(&bbox), "box_class": class, "multi_thread_runtime": mt, "detail": extra});
+		let witness = |extra: serde_json::Value| json!({"source": kname, "source_detail": b.describe, "bbox": bstr(&bbox), "box_class": class, "multi_thread_runtime": mt, "scarce_file_descriptors": scarce, "detail": extra});
 		let items = match streamed {
 			Err(p) => {
 				bad += 1;
